@@ -113,7 +113,7 @@ class Adapter(EnvAdapter):
         if q:
             return [
                 # registered default: 5 x 5 blocks, 11 x 11 grid, cell-dense reward (8100 mask entries per state)
-                c("r55_cell", "random", 5, 5, "cell", episodes=2, probe_cap=5, policies=["solution", "mostly_masked"]),
+                c("r55_cell", "random", 5, 5, "cell", episodes=2, probe_cap=5, policies=["solution", "mostly_masked"], default_ctor=True),
                 c("r22_cell", "random", 2, 2, "cell", episodes=8, probe_cap=36),
                 c("r22_block", "random", 2, 2, "block", episodes=4, probe_cap=24),
                 c("r12_block", "random", 1, 2, "block", episodes=8, probe_cap=24),      # 3 x 5 grid, all 24 actions probed
@@ -124,7 +124,7 @@ class Adapter(EnvAdapter):
                 c("toynorot_block", "toy_norot", 2, 2, "block", episodes=4, probe_cap=24),
             ]
         return [
-            c("r55_cell", "random", 5, 5, "cell", episodes=12, probe_cap=12),
+            c("r55_cell", "random", 5, 5, "cell", episodes=12, probe_cap=12, default_ctor=True),
             c("r55_block", "random", 5, 5, "block", episodes=6, probe_cap=8),
             c("r22_cell", "random", 2, 2, "cell", episodes=80, probe_cap=72),
             c("r22_block", "random", 2, 2, "block", episodes=40, probe_cap=48),
@@ -164,6 +164,10 @@ class Adapter(EnvAdapter):
         return "block" if reward == "cell" else "cell"
 
     def make(self, cfg):
+        if cfg.get("default_ctor"):       # the documented defaults come from the library's own no-argument constructor
+            from jumanji.environments.packing.flat_pack.env import FlatPack
+
+            return FlatPack()
         return self._make(cfg, cfg["ctor"]["reward"])
 
     def make_alt(self, cfg):
